@@ -125,7 +125,9 @@ void XBW::idToStr(uint id, uint *pos, uchar **v, uint cnt) const {
 
 void XBW::subPathSearch(const uchar *qry, const uint ql, uint *left,
                         uint *right) const {
-  if (ql <= 1) {
+  // Only the empty path (possibly preceded by the root marker) matches all
+  // nodes: a single-char query is a regular subpath search
+  if ((ql == 0) || ((ql == 1) && (qry[0] == 0))) {
     *left = 0;
     *right = nodesCount - 1;
     return;
